@@ -212,7 +212,9 @@ class SelectorMap:
     for i, component in enumerate(reversed(selector_components)):
       if len(node) == 1:
         if start is None:
-          start = -i  # Negative index, since we're iterating in reverse.
+          # Negative index, since we're iterating in reverse. At least the
+          # innermost component is needed (and -0 would select everything).
+          start = -max(i, 1)
       else:
         start = None
       node = node[component]
